@@ -418,7 +418,7 @@ func (e *Engine) loadKnown(path string) ([]KnownFinding, error) {
 	for _, k := range f.Findings {
 		if k.Status == "known" && k.Class != "" {
 			e.knownOpen[k.Class] = true
-			e.knownWhat[k.Class] = k.What
+			e.knownWhat[k.Prop+"|"+k.Class] = k.What
 		}
 	}
 	return f.Findings, nil
